@@ -48,8 +48,8 @@ ASSUMPTIONS = [
     "object and judges every step like a single call, i.e. checks that the cache is unobservable",
 ]
 UNPROVED = [
-    "GCXS theorems are stated for arrays of the form _from_coo(c, ca) with c canonical (the form C05 proves for every "
-    "array the library builds); that EVERY array satisfying gcxs_wfb is of that form is not proved",
+    "the *_any GCXS theorems hold for every record accepted by gcxs_strictb = gcxs_wfb plus, for ndim < 2, empty "
+    "compressed_axes / indptr (the unused fields, which GCXS.__init__ keeps empty but gcxs_wfb does not constrain)",
     "moveaxis_order = np_moveaxis_perm is proved for ndim <= 5 (the property's scope; exhaustive evaluation inside Coq, "
     "bound in the statement), not for arbitrary ndim",
     "index dtypes chosen by get_out_dtype in _transpose/_1d_reshape (C15) and the DOK paths (conversion to COO; C05/C12)",
